@@ -6,50 +6,58 @@ namespace ImathVerif.Gen
 open ImathVerif
 
 /-- extracted from the C++ template at T = Sym; 1 path(s) -/
+def C08.V2.dot {α : Type} [Add α] [Mul α] (a : V2 α) (b : V2 α) : α :=
+  ((a.x * b.x) + (a.y * b.y))
+
+/-- extracted from the C++ template at T = Sym; 1 path(s) -/
 def C08.V2.length2 {α : Type} [Add α] [Mul α] (a : V2 α) : α :=
   ((a.x * a.x) + (a.y * a.y))
 
 /-- extracted from the C++ template at T = Sym; 2 path(s) -/
 def C08.V2.normalize {α : Type} [Add α] [Mul α] [Div α] [Neg α] [LT α] [DecidableLT α] [DecidableEq α] [OfNat α 0] [OfNat α 2] (tmin : α) (sqrt : α → α) (a : V2 α) : (V2 α) :=
-  let t6 := (V2.length tmin sqrt ⟨a.x, a.y⟩)
-  if t6 = (0 : α) then
+  let t11 := (V2.length tmin sqrt ⟨a.x, a.y⟩)
+  if t11 = (0 : α) then
     ⟨a.x, a.y⟩
   else
-    ⟨(a.x / t6), (a.y / t6)⟩
+    ⟨(a.x / t11), (a.y / t11)⟩
 
 /-- extracted from the C++ template at T = Sym; 2 path(s) -/
 def C08.V2.normalizeExc {α : Type} [Add α] [Mul α] [Div α] [Neg α] [LT α] [DecidableLT α] [DecidableEq α] [OfNat α 0] [OfNat α 2] (tmin : α) (sqrt : α → α) (a : V2 α) : Except Exc (V2 α) :=
-  let t6 := (V2.length tmin sqrt ⟨a.x, a.y⟩)
-  if t6 = (0 : α) then
+  let t11 := (V2.length tmin sqrt ⟨a.x, a.y⟩)
+  if t11 = (0 : α) then
     .error Exc.domainError
   else
-    .ok (⟨(a.x / t6), (a.y / t6)⟩)
+    .ok (⟨(a.x / t11), (a.y / t11)⟩)
 
 /-- extracted from the C++ template at T = Sym; 1 path(s) -/
 def C08.V2.normalizeNonNull {α : Type} [Add α] [Mul α] [Div α] [Neg α] [LT α] [DecidableLT α] [DecidableEq α] [OfNat α 0] [OfNat α 2] (tmin : α) (sqrt : α → α) (a : V2 α) : (V2 α) :=
-  let t6 := (V2.length tmin sqrt ⟨a.x, a.y⟩)
-  ⟨(a.x / t6), (a.y / t6)⟩
+  let t11 := (V2.length tmin sqrt ⟨a.x, a.y⟩)
+  ⟨(a.x / t11), (a.y / t11)⟩
 
 /-- extracted from the C++ template at T = Sym; 2 path(s) -/
 def C08.V2.normalized {α : Type} [Add α] [Mul α] [Div α] [Neg α] [LT α] [DecidableLT α] [DecidableEq α] [OfNat α 0] [OfNat α 2] (tmin : α) (sqrt : α → α) (a : V2 α) : (V2 α) :=
-  let t6 := (V2.length tmin sqrt ⟨a.x, a.y⟩)
-  if t6 = (0 : α) then
+  let t11 := (V2.length tmin sqrt ⟨a.x, a.y⟩)
+  if t11 = (0 : α) then
     ⟨(0 : α), (0 : α)⟩
   else
-    ⟨(a.x / t6), (a.y / t6)⟩
+    ⟨(a.x / t11), (a.y / t11)⟩
 
 /-- extracted from the C++ template at T = Sym; 2 path(s) -/
 def C08.V2.normalizedExc {α : Type} [Add α] [Mul α] [Div α] [Neg α] [LT α] [DecidableLT α] [DecidableEq α] [OfNat α 0] [OfNat α 2] (tmin : α) (sqrt : α → α) (a : V2 α) : Except Exc (V2 α) :=
-  let t6 := (V2.length tmin sqrt ⟨a.x, a.y⟩)
-  if t6 = (0 : α) then
+  let t11 := (V2.length tmin sqrt ⟨a.x, a.y⟩)
+  if t11 = (0 : α) then
     .error Exc.domainError
   else
-    .ok (⟨(a.x / t6), (a.y / t6)⟩)
+    .ok (⟨(a.x / t11), (a.y / t11)⟩)
 
 /-- extracted from the C++ template at T = Sym; 1 path(s) -/
 def C08.V2.normalizedNonNull {α : Type} [Add α] [Mul α] [Div α] [Neg α] [LT α] [DecidableLT α] [DecidableEq α] [OfNat α 0] [OfNat α 2] (tmin : α) (sqrt : α → α) (a : V2 α) : (V2 α) :=
-  let t6 := (V2.length tmin sqrt ⟨a.x, a.y⟩)
-  ⟨(a.x / t6), (a.y / t6)⟩
+  let t11 := (V2.length tmin sqrt ⟨a.x, a.y⟩)
+  ⟨(a.x / t11), (a.y / t11)⟩
+
+/-- extracted from the C++ template at T = Sym; 1 path(s) -/
+def C08.V3.dot {α : Type} [Add α] [Mul α] (a : V3 α) (b : V3 α) : α :=
+  (((a.x * b.x) + (a.y * b.y)) + (a.z * b.z))
 
 /-- extracted from the C++ template at T = Sym; 1 path(s) -/
 def C08.V3.length2 {α : Type} [Add α] [Mul α] (a : V3 α) : α :=
@@ -57,45 +65,49 @@ def C08.V3.length2 {α : Type} [Add α] [Mul α] (a : V3 α) : α :=
 
 /-- extracted from the C++ template at T = Sym; 2 path(s) -/
 def C08.V3.normalize {α : Type} [Add α] [Mul α] [Div α] [Neg α] [LT α] [LE α] [DecidableLT α] [DecidableLE α] [DecidableEq α] [OfNat α 0] [OfNat α 2] (tmin : α) (sqrt : α → α) (a : V3 α) : (V3 α) :=
-  let t12 := (V3.length tmin sqrt ⟨a.x, a.y, a.z⟩)
-  if t12 = (0 : α) then
+  let t20 := (V3.length tmin sqrt ⟨a.x, a.y, a.z⟩)
+  if t20 = (0 : α) then
     ⟨a.x, a.y, a.z⟩
   else
-    ⟨(a.x / t12), (a.y / t12), (a.z / t12)⟩
+    ⟨(a.x / t20), (a.y / t20), (a.z / t20)⟩
 
 /-- extracted from the C++ template at T = Sym; 2 path(s) -/
 def C08.V3.normalizeExc {α : Type} [Add α] [Mul α] [Div α] [Neg α] [LT α] [LE α] [DecidableLT α] [DecidableLE α] [DecidableEq α] [OfNat α 0] [OfNat α 2] (tmin : α) (sqrt : α → α) (a : V3 α) : Except Exc (V3 α) :=
-  let t12 := (V3.length tmin sqrt ⟨a.x, a.y, a.z⟩)
-  if t12 = (0 : α) then
+  let t20 := (V3.length tmin sqrt ⟨a.x, a.y, a.z⟩)
+  if t20 = (0 : α) then
     .error Exc.domainError
   else
-    .ok (⟨(a.x / t12), (a.y / t12), (a.z / t12)⟩)
+    .ok (⟨(a.x / t20), (a.y / t20), (a.z / t20)⟩)
 
 /-- extracted from the C++ template at T = Sym; 1 path(s) -/
 def C08.V3.normalizeNonNull {α : Type} [Add α] [Mul α] [Div α] [Neg α] [LT α] [LE α] [DecidableLT α] [DecidableLE α] [DecidableEq α] [OfNat α 0] [OfNat α 2] (tmin : α) (sqrt : α → α) (a : V3 α) : (V3 α) :=
-  let t12 := (V3.length tmin sqrt ⟨a.x, a.y, a.z⟩)
-  ⟨(a.x / t12), (a.y / t12), (a.z / t12)⟩
+  let t20 := (V3.length tmin sqrt ⟨a.x, a.y, a.z⟩)
+  ⟨(a.x / t20), (a.y / t20), (a.z / t20)⟩
 
 /-- extracted from the C++ template at T = Sym; 2 path(s) -/
 def C08.V3.normalized {α : Type} [Add α] [Mul α] [Div α] [Neg α] [LT α] [LE α] [DecidableLT α] [DecidableLE α] [DecidableEq α] [OfNat α 0] [OfNat α 2] (tmin : α) (sqrt : α → α) (a : V3 α) : (V3 α) :=
-  let t12 := (V3.length tmin sqrt ⟨a.x, a.y, a.z⟩)
-  if t12 = (0 : α) then
+  let t20 := (V3.length tmin sqrt ⟨a.x, a.y, a.z⟩)
+  if t20 = (0 : α) then
     ⟨(0 : α), (0 : α), (0 : α)⟩
   else
-    ⟨(a.x / t12), (a.y / t12), (a.z / t12)⟩
+    ⟨(a.x / t20), (a.y / t20), (a.z / t20)⟩
 
 /-- extracted from the C++ template at T = Sym; 2 path(s) -/
 def C08.V3.normalizedExc {α : Type} [Add α] [Mul α] [Div α] [Neg α] [LT α] [LE α] [DecidableLT α] [DecidableLE α] [DecidableEq α] [OfNat α 0] [OfNat α 2] (tmin : α) (sqrt : α → α) (a : V3 α) : Except Exc (V3 α) :=
-  let t12 := (V3.length tmin sqrt ⟨a.x, a.y, a.z⟩)
-  if t12 = (0 : α) then
+  let t20 := (V3.length tmin sqrt ⟨a.x, a.y, a.z⟩)
+  if t20 = (0 : α) then
     .error Exc.domainError
   else
-    .ok (⟨(a.x / t12), (a.y / t12), (a.z / t12)⟩)
+    .ok (⟨(a.x / t20), (a.y / t20), (a.z / t20)⟩)
 
 /-- extracted from the C++ template at T = Sym; 1 path(s) -/
 def C08.V3.normalizedNonNull {α : Type} [Add α] [Mul α] [Div α] [Neg α] [LT α] [LE α] [DecidableLT α] [DecidableLE α] [DecidableEq α] [OfNat α 0] [OfNat α 2] (tmin : α) (sqrt : α → α) (a : V3 α) : (V3 α) :=
-  let t12 := (V3.length tmin sqrt ⟨a.x, a.y, a.z⟩)
-  ⟨(a.x / t12), (a.y / t12), (a.z / t12)⟩
+  let t20 := (V3.length tmin sqrt ⟨a.x, a.y, a.z⟩)
+  ⟨(a.x / t20), (a.y / t20), (a.z / t20)⟩
+
+/-- extracted from the C++ template at T = Sym; 1 path(s) -/
+def C08.V4.dot {α : Type} [Add α] [Mul α] (a : V4 α) (b : V4 α) : α :=
+  ((((a.x * b.x) + (a.y * b.y)) + (a.z * b.z)) + (a.w * b.w))
 
 /-- extracted from the C++ template at T = Sym; 1 path(s) -/
 def C08.V4.length2 {α : Type} [Add α] [Mul α] (a : V4 α) : α :=
@@ -103,44 +115,44 @@ def C08.V4.length2 {α : Type} [Add α] [Mul α] (a : V4 α) : α :=
 
 /-- extracted from the C++ template at T = Sym; 2 path(s) -/
 def C08.V4.normalize {α : Type} [Add α] [Mul α] [Div α] [Neg α] [LT α] [LE α] [DecidableLT α] [DecidableLE α] [DecidableEq α] [OfNat α 0] [OfNat α 2] (tmin : α) (sqrt : α → α) (a : V4 α) : (V4 α) :=
-  let t19 := (V4.length tmin sqrt ⟨a.x, a.y, a.z, a.w⟩)
-  if t19 = (0 : α) then
+  let t30 := (V4.length tmin sqrt ⟨a.x, a.y, a.z, a.w⟩)
+  if t30 = (0 : α) then
     ⟨a.x, a.y, a.z, a.w⟩
   else
-    ⟨(a.x / t19), (a.y / t19), (a.z / t19), (a.w / t19)⟩
+    ⟨(a.x / t30), (a.y / t30), (a.z / t30), (a.w / t30)⟩
 
 /-- extracted from the C++ template at T = Sym; 2 path(s) -/
 def C08.V4.normalizeExc {α : Type} [Add α] [Mul α] [Div α] [Neg α] [LT α] [LE α] [DecidableLT α] [DecidableLE α] [DecidableEq α] [OfNat α 0] [OfNat α 2] (tmin : α) (sqrt : α → α) (a : V4 α) : Except Exc (V4 α) :=
-  let t19 := (V4.length tmin sqrt ⟨a.x, a.y, a.z, a.w⟩)
-  if t19 = (0 : α) then
+  let t30 := (V4.length tmin sqrt ⟨a.x, a.y, a.z, a.w⟩)
+  if t30 = (0 : α) then
     .error Exc.domainError
   else
-    .ok (⟨(a.x / t19), (a.y / t19), (a.z / t19), (a.w / t19)⟩)
+    .ok (⟨(a.x / t30), (a.y / t30), (a.z / t30), (a.w / t30)⟩)
 
 /-- extracted from the C++ template at T = Sym; 1 path(s) -/
 def C08.V4.normalizeNonNull {α : Type} [Add α] [Mul α] [Div α] [Neg α] [LT α] [LE α] [DecidableLT α] [DecidableLE α] [DecidableEq α] [OfNat α 0] [OfNat α 2] (tmin : α) (sqrt : α → α) (a : V4 α) : (V4 α) :=
-  let t19 := (V4.length tmin sqrt ⟨a.x, a.y, a.z, a.w⟩)
-  ⟨(a.x / t19), (a.y / t19), (a.z / t19), (a.w / t19)⟩
+  let t30 := (V4.length tmin sqrt ⟨a.x, a.y, a.z, a.w⟩)
+  ⟨(a.x / t30), (a.y / t30), (a.z / t30), (a.w / t30)⟩
 
 /-- extracted from the C++ template at T = Sym; 2 path(s) -/
 def C08.V4.normalized {α : Type} [Add α] [Mul α] [Div α] [Neg α] [LT α] [LE α] [DecidableLT α] [DecidableLE α] [DecidableEq α] [OfNat α 0] [OfNat α 2] (tmin : α) (sqrt : α → α) (a : V4 α) : (V4 α) :=
-  let t19 := (V4.length tmin sqrt ⟨a.x, a.y, a.z, a.w⟩)
-  if t19 = (0 : α) then
+  let t30 := (V4.length tmin sqrt ⟨a.x, a.y, a.z, a.w⟩)
+  if t30 = (0 : α) then
     ⟨(0 : α), (0 : α), (0 : α), (0 : α)⟩
   else
-    ⟨(a.x / t19), (a.y / t19), (a.z / t19), (a.w / t19)⟩
+    ⟨(a.x / t30), (a.y / t30), (a.z / t30), (a.w / t30)⟩
 
 /-- extracted from the C++ template at T = Sym; 2 path(s) -/
 def C08.V4.normalizedExc {α : Type} [Add α] [Mul α] [Div α] [Neg α] [LT α] [LE α] [DecidableLT α] [DecidableLE α] [DecidableEq α] [OfNat α 0] [OfNat α 2] (tmin : α) (sqrt : α → α) (a : V4 α) : Except Exc (V4 α) :=
-  let t19 := (V4.length tmin sqrt ⟨a.x, a.y, a.z, a.w⟩)
-  if t19 = (0 : α) then
+  let t30 := (V4.length tmin sqrt ⟨a.x, a.y, a.z, a.w⟩)
+  if t30 = (0 : α) then
     .error Exc.domainError
   else
-    .ok (⟨(a.x / t19), (a.y / t19), (a.z / t19), (a.w / t19)⟩)
+    .ok (⟨(a.x / t30), (a.y / t30), (a.z / t30), (a.w / t30)⟩)
 
 /-- extracted from the C++ template at T = Sym; 1 path(s) -/
 def C08.V4.normalizedNonNull {α : Type} [Add α] [Mul α] [Div α] [Neg α] [LT α] [LE α] [DecidableLT α] [DecidableLE α] [DecidableEq α] [OfNat α 0] [OfNat α 2] (tmin : α) (sqrt : α → α) (a : V4 α) : (V4 α) :=
-  let t19 := (V4.length tmin sqrt ⟨a.x, a.y, a.z, a.w⟩)
-  ⟨(a.x / t19), (a.y / t19), (a.z / t19), (a.w / t19)⟩
+  let t30 := (V4.length tmin sqrt ⟨a.x, a.y, a.z, a.w⟩)
+  ⟨(a.x / t30), (a.y / t30), (a.z / t30), (a.w / t30)⟩
 
 end ImathVerif.Gen
